@@ -69,6 +69,62 @@ type mstate struct {
 	resTypes []string // Lean types of the (non-dropped) Go results
 	fuelUsed bool     // a `for cond {}` loop (or a callee with one) was emitted: the definition takes `(fuel : Nat)`
 	tie      bool     // the function reads / writes slice state of a struct parameter: round-4 translation rules
+	structRes map[int]*types.Struct // result positions of type *T (T a struct of translatable fields) returned as the fields
+}
+
+// ctorInfo: a translated function `func F(args) *T { return &T{...} }` (callable as `x = F(args)` for a struct parameter x)
+type ctorInfo struct {
+	lean   string
+	nplain int
+	fields []string
+}
+
+var ctorCallees = map[string]ctorInfo{} // "<module>|<pkg>.<Func>"
+
+// structFields: names and Lean types of the fields of st, if all are translatable
+func structFields(st *types.Struct) ([]string, []string, bool) {
+	var ns, ts []string
+	for j := 0; j < st.NumFields(); j++ {
+		lt, err := leanTypeM(st.Field(j).Type())
+		if err != nil {
+			return nil, nil, false
+		}
+		ns = append(ns, st.Field(j).Name())
+		ts = append(ts, lt)
+	}
+	return ns, ts, len(ns) > 0
+}
+
+// structResultOK: every `return` of fd yields, at result position ri, a struct parameter or a composite literal of st
+func (fc *fnCtx) structResultOK(fd *ast.FuncDecl, ri int) bool {
+	ok, any := true, false
+	ast.Inspect(fd.Body, func(n ast.Node) bool {
+		switch x := n.(type) {
+		case *ast.FuncLit:
+			return false
+		case *ast.ReturnStmt:
+			if ri >= len(x.Results) {
+				ok = false
+				return false
+			}
+			any = true
+			r := x.Results[ri]
+			if u, isU := r.(*ast.UnaryExpr); isU && u.Op == token.AND {
+				r = u.X
+			}
+			switch y := r.(type) {
+			case *ast.Ident:
+				if _, isS := fc.structs[y.Name]; !isS {
+					ok = false
+				}
+			case *ast.CompositeLit:
+			default:
+				ok = false
+			}
+		}
+		return ok
+	})
+	return ok && any
 }
 
 // scopeEnd is a synthetic statement appended to a block when the block's statements are spliced in front of
@@ -420,6 +476,27 @@ func (fc *fnCtx) mexpr(ex ast.Expr) (string, bool, error) {
 			return r, true, nil
 		}
 	case *ast.BinaryExpr:
+		if x.Op == token.EQL || x.Op == token.NEQ {
+			var other ast.Expr
+			if id, ok := x.Y.(*ast.Ident); ok && id.Name == "nil" {
+				other = x.X
+			} else if id, ok := x.X.(*ast.Ident); ok && id.Name == "nil" {
+				other = x.Y
+			}
+			if id, ok := other.(*ast.Ident); ok {
+				if _, isS := fc.structs[id.Name]; isS {
+					key := id.Name + "_isNil"
+					if _, seen := fc.locals[key]; !seen {
+						return fail("nil test of value parameter %s", id.Name)
+					}
+					fc.fieldsUsed[key] = "Bool"
+					if x.Op == token.EQL {
+						return fc.name(key), true, nil
+					}
+					return "(!" + fc.name(key) + ")", true, nil
+				}
+			}
+		}
 		switch x.Op {
 		case token.LAND, token.LOR:
 			a, err := fc.expr(x.X)
@@ -906,6 +983,62 @@ func (fc *fnCtx) methodCallText(recv string, mi methodInfo, call *ast.CallExpr) 
 	return strings.Join(parts, " "), nil
 }
 
+// structValue: the field values of an expression of type *T / T: a struct parameter, or a composite literal
+func (fc *fnCtx) structValue(st *types.Struct, r ast.Expr) ([]string, error) {
+	if u, ok := r.(*ast.UnaryExpr); ok && u.Op == token.AND {
+		r = u.X
+	}
+	fns, fts, _ := structFields(st)
+	switch y := r.(type) {
+	case *ast.Ident:
+		if _, ok := fc.structs[y.Name]; !ok {
+			return nil, fmt.Errorf("struct-valued result %s is not a struct parameter", y.Name)
+		}
+		var vals []string
+		for _, f := range fns {
+			v, err := fc.expr(&ast.SelectorExpr{X: &ast.Ident{Name: y.Name}, Sel: &ast.Ident{Name: f}})
+			if err != nil {
+				return nil, err
+			}
+			vals = append(vals, v)
+		}
+		return vals, nil
+	case *ast.CompositeLit:
+		vals := make([]string, len(fns))
+		for i, ft := range fts {
+			vals[i] = map[string]string{"Int": "0", "Bool": "false", "List Int": "[]"}[ft]
+		}
+		for i, el := range y.Elts {
+			k := i
+			if kv, ok := el.(*ast.KeyValueExpr); ok {
+				k = -1
+				for j, f := range fns {
+					if id, ok := kv.Key.(*ast.Ident); ok && id.Name == f {
+						k = j
+					}
+				}
+				el = kv.Value
+			}
+			if k < 0 || k >= len(fns) {
+				return nil, fmt.Errorf("composite literal field")
+			}
+			var v string
+			var err error
+			if fts[k] == "List Int" {
+				v, err = fc.lexprOrMake(el)
+			} else {
+				v, err = fc.expr(el)
+			}
+			if err != nil {
+				return nil, err
+			}
+			vals[k] = v
+		}
+		return vals, nil
+	}
+	return nil, fmt.Errorf("struct-valued result %T", r)
+}
+
 // lvalueKey: the local an assignment target denotes: a plain local, or a field of a struct parameter.
 func (fc *fnCtx) lvalueKey(e ast.Expr) (string, bool) {
 	switch x := e.(type) {
@@ -1031,6 +1164,14 @@ func (fc *fnCtx) mblock(stmts []ast.Stmt, lvl int) (string, error) {
 		}
 		var rs []string
 		for ri, r := range x.Results {
+			if st := fc.m.structRes[ri]; st != nil {
+				vals, err := fc.structValue(st, r)
+				if err != nil {
+					return "", err
+				}
+				rs = append(rs, vals...)
+				continue
+			}
 			if ri < len(fc.m.dropRes) && fc.m.dropRes[ri] {
 				// object-valued result: not part of the translation; it must be an expression that cannot panic
 				switch y := r.(type) {
@@ -1653,6 +1794,58 @@ func (fc *fnCtx) massign(x *ast.AssignStmt, rest []ast.Stmt, lvl int) (string, e
 	if len(x.Lhs) != len(x.Rhs) {
 		return "", fmt.Errorf("multi-value assignment")
 	}
+	// x = F(args): a struct parameter is re-pointed at a freshly constructed object (F translated earlier, `return &T{...}`)
+	if len(x.Lhs) == 1 && x.Tok == token.ASSIGN {
+		if id, ok := x.Lhs[0].(*ast.Ident); ok {
+			if st, isS := fc.structs[id.Name]; isS {
+				call, ok := x.Rhs[0].(*ast.CallExpr)
+				if !ok {
+					return "", fmt.Errorf("assignment to struct parameter %s", id.Name)
+				}
+				fid, ok := call.Fun.(*ast.Ident)
+				if !ok {
+					return "", fmt.Errorf("assignment to struct parameter %s", id.Name)
+				}
+				fn, ok := fc.p.TypesInfo.Uses[fid].(*types.Func)
+				if !ok || fn.Pkg() == nil {
+					return "", fmt.Errorf("assignment to struct parameter %s", id.Name)
+				}
+				ci, ok := ctorCallees[fc.m.module+"|"+relPkg(fn.Pkg().Path())+"."+fn.Name()]
+				if !ok || ci.nplain != len(call.Args) {
+					return "", fmt.Errorf("%s is not a translated constructor", fn.Name())
+				}
+				parts := []string{ci.lean}
+				for _, a := range call.Args {
+					s, err := fc.expr(a)
+					if err != nil {
+						return "", err
+					}
+					parts = append(parts, s)
+				}
+				t := fc.bind(strings.Join(parts, " "))
+				sb.WriteString(fc.flush(lvl))
+				fns, fts, _ := structFields(st)
+				for k, f := range fns {
+					key := id.Name + "_" + f
+					pr := t
+					if len(fns) > 1 {
+						pr = t + strings.Repeat(".2", k)
+						if k < len(fns)-1 {
+							pr += ".1"
+						}
+					}
+					fc.declare(key, fts[k])
+					fc.fieldsUsed[key] = fts[k]
+					fmt.Fprintf(&sb, "%slet %s := %s\n", ind(lvl), fc.name(key), pr)
+				}
+				if _, seen := fc.locals[id.Name+"_isNil"]; seen {
+					fc.declare(id.Name+"_isNil", "Bool")
+					fmt.Fprintf(&sb, "%slet %s := false\n", ind(lvl), fc.name(id.Name+"_isNil"))
+				}
+				return cont(sb.String())
+			}
+		}
+	}
 	// evaluate all index operands and right-hand sides first (Go semantics of parallel assignment), then
 	// assign left to right (two element writes to the same slice must see each other)
 	type tgt struct {
@@ -1974,6 +2167,18 @@ func assignedIn3(stmts []ast.Stmt) (assigned, declared, whole map[string]bool) {
 				return false
 			case *ast.AssignStmt:
 				for _, l := range x.Lhs {
+					if id, ok := l.(*ast.Ident); ok && curFC != nil && x.Tok == token.ASSIGN {
+						if st, isS := curFC.structs[id.Name]; isS {
+							// the struct parameter is re-pointed: all its fields change
+							for j := 0; j < st.NumFields(); j++ {
+								assigned[id.Name+"_"+st.Field(j).Name()] = true
+								whole[id.Name+"_"+st.Field(j).Name()] = true
+							}
+							assigned[id.Name+"_isNil"] = true
+							whole[id.Name+"_isNil"] = true
+							continue
+						}
+					}
 					if name, viaElem := lvalName(l); name != "" && name != "_" {
 						if x.Tok == token.DEFINE {
 							if _, isIdent := l.(*ast.Ident); isIdent {
@@ -2757,6 +2962,9 @@ func genFuncM(p *packages.Package, e entry) (string, error) {
 							fc.declare(n.Name+"_"+st.Field(j).Name(), flt)
 						}
 					}
+					if isPtr {
+						fc.declare(n.Name+"_isNil", "Bool") // `x == nil`
+					}
 				}
 				continue
 			}
@@ -2829,6 +3037,19 @@ func genFuncM(p *packages.Package, e entry) (string, error) {
 				lt = "Bool"
 			} else if _, isPtr := t.Underlying().(*types.Pointer); isPtr {
 				drop = true
+				if st := structOf(t); st != nil && len(fl.Names) <= 1 {
+					if _, fts, okf := structFields(st); okf && fc.structResultOK(fd, len(fc.m.dropRes)) {
+						// *T returned as the fields of T (a struct parameter or a composite literal in every return)
+						if fc.m.structRes == nil {
+							fc.m.structRes = map[int]*types.Struct{}
+						}
+						fc.m.structRes[len(fc.m.dropRes)] = st
+						fc.m.dropRes = append(fc.m.dropRes, false)
+						rts = append(rts, fts...)
+						named = append(named, fl.Names...)
+						continue
+					}
+				}
 			} else {
 				return "", err
 			}
@@ -2844,6 +3065,36 @@ func genFuncM(p *packages.Package, e entry) (string, error) {
 				rts = append(rts, lt)
 			}
 		}
+	}
+	// a struct parameter that is returned: its fields are already part of the result
+	if len(fc.m.structRes) > 0 {
+		retParams := map[string]bool{}
+		ast.Inspect(fd.Body, func(n ast.Node) bool {
+			if rs, ok := n.(*ast.ReturnStmt); ok {
+				for ri, r := range rs.Results {
+					if fc.m.structRes[ri] != nil {
+						if id, ok := r.(*ast.Ident); ok {
+							retParams[id.Name] = true
+						}
+					}
+				}
+			}
+			return true
+		})
+		var keep, keepT []string
+		for i, o := range fc.m.outVars {
+			covered := false
+			for rp := range retParams {
+				if strings.HasPrefix(o, rp+"_") && !fc.isParam(o) {
+					covered = true
+				}
+			}
+			if !covered {
+				keep = append(keep, o)
+				keepT = append(keepT, outTypes[i])
+			}
+		}
+		fc.m.outVars, outTypes = keep, keepT
 	}
 	if len(named) > 0 {
 		return "", fmt.Errorf("named results")
@@ -2872,10 +3123,17 @@ func genFuncM(p *packages.Package, e entry) (string, error) {
 				}
 			}
 		}
+		if _, ok := fc.fieldsUsed[sp.name+"_isNil"]; ok {
+			fps = append([]string{fmt.Sprintf("(%s_isNil : Bool)", sp.name)}, fps...)
+		}
 		params = append(params[:sp.at], append(fps, params[sp.at:]...)...)
 	}
 	if fc.m.fuelUsed {
 		params = append([]string{"(fuel : Nat)"}, params...)
+	}
+	if fd.Recv == nil && len(sparams) == 0 && len(fc.m.structRes) == 1 && len(fc.m.dropRes) == 1 && !fc.m.fuelUsed {
+		fns, _, _ := structFields(fc.m.structRes[0])
+		ctorCallees[e.module+"|"+e.pkg+"."+e.name] = ctorInfo{lean: e.lean, nplain: nplain, fields: fns}
 	}
 	if len(sparams) == 0 && !fc.m.fuelUsed && len(fc.m.outVars) == 0 {
 		callees[e.module+"|"+e.pkg+"."+e.name] = calleeInfo{lean: e.lean, nparams: nplain, nres: len(rts)}
